@@ -776,9 +776,18 @@ func (c *Client) Do(ctx context.Context, q Query) (err error) {
 	g.Go(func() error {
 		<-done
 		// Handling query cancellation if needed.
-		if (ctx.Err() != nil || recvFailed.Load()) && !gotException.Load() {
+		if gotException.Load() {
+			return nil
+		}
+		if ctx.Err() != nil {
 			err := multierr.Append(ctx.Err(), c.cancelQuery())
 			return errors.Wrap(err, "canceled")
+		}
+		if recvFailed.Load() {
+			// The context is not cancelled yet, so the error of the receive
+			// loop is still on its way to the error group: do not compete
+			// with it, only make sure the connection is not reused.
+			_ = c.cancelQuery()
 		}
 		return nil
 	})
